@@ -9,6 +9,7 @@ import (
 	"os"
 	"os/exec"
 	"path/filepath"
+	"regexp"
 	"strings"
 
 	schema "github.com/jsightapi/jsight-schema-core"
@@ -331,6 +332,15 @@ func c08ProjectP(r *mon.Run, vs *valService, rng *rand.Rand, p *gen.Project, red
 			}
 		}
 	}
+	cyclic := false
+	if c08Cyclic(pt) && !pinned {
+		// recorded finding family: where the example generator cuts a recursion it leaves the member out (or leaves
+		// an empty container), also when the member is required - nullable would allow null, a choice another
+		// alternative. Examples and variations of projects whose types refer to each other in a cycle are validated,
+		// but a rejection is only counted; the pinned witness is replayed separately.
+		cyclic = true
+		r.Count("recursive_projects_(rejections_of_the_example_only_counted)", 1)
+	}
 	if usesAllOf(p) && !pinned {
 		// recorded finding family: `additionalProperties: false` is emitted next to `allOf` (and in the
 		// referenced components), so no instance with own + inherited properties can validate. Only the
@@ -357,6 +367,10 @@ func c08ProjectP(r *mon.Run, vs *valService, rng *rand.Rand, p *gen.Project, red
 		if res.Valid {
 			continue
 		}
+		if cyclic {
+			r.Count("carved_out_recursion_limited_examples_rejected", 1)
+			return true
+		}
 		if i == 0 {
 			report("example-invalid", fmt.Sprintf("Example() %s is not a valid instance of the generated Schema Object: %s :: schema %s", mon.Trunc(instances[0], 200), res.Error, mon.Trunc(conv.Root, 400)), "")
 		} else {
@@ -367,6 +381,42 @@ func c08ProjectP(r *mon.Run, vs *valService, rng *rand.Rand, p *gen.Project, red
 		return true
 	}
 	return true
+}
+
+var c08NameRE = regexp.MustCompile(`@[A-Za-z0-9_-]+`)
+
+// c08Cyclic tells whether the registered types mention each other in a cycle (any mention in the text counts).
+func c08Cyclic(pt project) bool {
+	mentions := map[string][]string{}
+	for _, t := range pt.Types {
+		if !t.Regex {
+			mentions[t.Name] = c08NameRE.FindAllString(t.Text, -1)
+		}
+	}
+	state := map[string]int{}
+	var visit func(n string) bool
+	visit = func(n string) bool {
+		switch state[n] {
+		case 1:
+			return true
+		case 2:
+			return false
+		}
+		state[n] = 1
+		for _, m := range mentions[n] {
+			if _, ok := mentions[m]; ok && visit(m) {
+				return true
+			}
+		}
+		state[n] = 2
+		return false
+	}
+	for n := range mentions {
+		if visit(n) {
+			return true
+		}
+	}
+	return false
 }
 
 // usesAllOf tells whether any element of the project carries the allOf rule.
@@ -386,7 +436,10 @@ func usesAllOf(p *gen.Project) bool {
 
 // c08Pinned are the witnesses of recorded findings, judged without carve-outs.
 func c08Pinned() []*gen.Project {
+	self := gen.Obj(gen.Ref("@t1").K("m1").R("nullable", "true"), gen.Ref("@t1").K("m2").R("optional", "true"))
 	return []*gen.Project{
+		// recursion-limited example: {"m1":{"m1":{},"m2":{}}} - the innermost objects lack the required (nullable) m1
+		{Root: gen.Obj(gen.Ref("@t1").K("m1")), Types: []gen.NamedNode{{Name: "@t1", Node: self}}},
 		{Root: gen.Obj(gen.Int("1").K("a")).RVal("allOf", gen.LitV(`"@t0"`)), Types: []gen.NamedNode{{Name: "@t0", Node: gen.Obj(gen.Int("2").K("b"))}}},
 	}
 }
@@ -503,6 +556,22 @@ func c08Run(r *mon.Run) {
 					}
 					r.Count("key_shortcut_grid_projects", 1)
 				}
+			}
+		}
+	}
+	// recursive projects: C06's random type graphs (optional / nullable / array / choice links back to earlier
+	// types, alias types, planted chains and diamonds); the accepted ones have finite examples, which must be
+	// instances of the recursive Schema Objects
+	{
+		rrng := r.Rand("c08-recursive")
+		for i, m := 0, r.Share(r.Pick(4_000, 80_000)); i < m; i++ {
+			c, _ := c06Random(rrng)
+			if c.Reg || c.OptDefault || c.OptTypes {
+				continue // the root is an ordinary root here
+			}
+			if c08Project(r, vs, rrng, c.Project, false) {
+				r.Nontrivial(projectKey(toTexts(c.Project, gen.DefaultLayout)))
+				r.Count("recursive_graph_projects_accepted", 1)
 			}
 		}
 	}
